@@ -123,6 +123,9 @@ type exchangeSpec struct {
 	slow *slowClient
 	// listenerBreaksOnDisconnect: the caller's listener panics when told 'disconnected' (having noted the call)
 	listenerBreaksOnDisconnect bool
+	// goroutineExits: the handler between the listener and the forwarder ends its goroutine (runtime.Goexit: deferred
+	// calls run, nothing propagates, recover() sees nothing) - 1: once the forwarder has returned, 2: before it is called
+	goroutineExits int
 	// client behaviour
 	clientCloseWhenBackendHasRequest bool // client goes away while the backend is stalled before responding
 	clientCloseAfterBody             int  // >0: client closes after reading that many body bytes (backend stalled mid-body)
@@ -348,7 +351,13 @@ func runExchange(spec exchangeSpec) exchangeResult {
 			}()
 			req = req.WithContext(ctx)
 		}
+		if spec.goroutineExits == 2 {
+			runtime.Goexit()
+		}
 		fwd.ServeHTTP(w, req)
+		if spec.goroutineExits == 1 {
+			runtime.Goexit()
+		}
 	})
 	sl := forward.NewStateListener(inner, func(u *url.URL, state int) {
 		mark([]string{"connected", "disconnected"}[state&1])
